@@ -20,6 +20,9 @@ META = {
             "configurations around the threshold classes, from the initial state and from injected non-initial "
             "states on the conservation frontier; in every state: no stuck state; from every new state the fair "
             "continuation completes and at quiescence sender window + receiver's unacknowledged consumed bytes (<= W//10) == W exactly. "
+            "[live] channels opened through open_session()/accept() with a per-channel window / packet size other than "
+            "the transport defaults: a transfer of several windows (one sender + reader, two senders + two readers) "
+            "completes on every schedule within delay bound 0/1. Reader-side half-close (its own EOF) is an event of the BFS. "
             "Premise check [counter seams]: the BFS steps at whole operations; the threads that touch a credit counter "
             "(two readers, WINDOW_ADJUST dispatch vs senders, arriving data vs reader) are additionally raced at "
             "source-line granularity (<=1/2 preemptions, every line of channel.py a scheduling point) and the same "
@@ -80,6 +83,8 @@ def run_item(item, acc):
             if ev[0] == "dA" and not st.cp.outbox("A"):
                 continue
             if ev[0] == "dB" and not st.cp.outbox("B"):
+                continue
+            if ev[0] == "rshut" and st.cp.b.eof_sent:
                 continue
             out.append(ev)
         return out
@@ -210,6 +215,39 @@ def run_two_writers(item, acc):
     acc.count("two_writer_schedules", res.executions)
 
 
+def run_live(item, acc):
+    """Channels opened through the real open_session()/accept() path with a per-channel window and packet size
+    other than the transport's defaults (the ChannelPair above installs the sizes directly): a transfer of
+    several windows with one or two reader threads must complete on every schedule within the delay bound
+    (scenario body shared with C19 part 2)."""
+    from props import c19
+    from vmc import explore, sched as S
+    tier, scn, bound = item
+    body = c19.make_body(scn)
+
+    def on_exec(ex):
+        acc.ev()
+        acc.validated += 1
+        acc.transitions += len(ex.points) + 1
+        if ex.outcome != "ok":
+            kind = "sender-stalls-although-reader-keeps-reading" if ex.outcome in ("deadlock", "livelock") \
+                else "live:harness-outcome:%s" % ex.outcome
+            acc.violation("%s:channel-opened-with-non-default-window" % kind,
+                          {"scn": scn, "err": repr(ex.error)[:300]}, {"live": scn, "choices": ex.choices})
+            return
+        v, got, total, ntx, nadj = ex.value
+        acc.nt(("live", scn[0], scn[1], got, nadj))
+        if sum(got) != total:
+            acc.violation("sender-stalls-although-reader-keeps-reading:channel-opened-with-non-default-window",
+                          {"scn": scn, "received": list(got), "expected_total": total, "window_adjusts_seen": nadj,
+                           "choices": ex.choices}, {"live": scn, "choices": ex.choices})
+    res = explore.explore(body, bound, "delay", cap=1500, on_exec=on_exec, sched_kw={"horizon": S.EPOCH + 120})
+    acc.states += 1
+    acc.count("live_schedules", res.executions)
+    if res.capped:
+        acc.note("wall cap: live cap 1500 hit for %r" % (scn,))
+
+
 def run_seam(item, acc):
     """The BFS merges states on the credit counters and steps at whole operations, which is sound as long as
     every access to the counters is under the channel lock.  That premise is explored here: the threads that
@@ -281,6 +319,12 @@ def main(tier):
     tw = [(tier, ("open", call, c25.W + 1, to, "reader", None, True)) for call in ("sendall", "sendall_stderr")
           for to in (None, 2.0)]
     ck.merge(core.pmap(tw, run_two_writers))
+    lb = 0 if tier == "quick" else 1
+    live = []
+    for (W, P) in ((32768, 4096), (40000, 32768)) + (() if tier == "quick" else ((65536, 65536),)):
+        live.append((tier, (W, P, (("send", 3 * W + 1),), (W // 10 + 1,)), lb))
+        live.append((tier, (W, P, (("send", W + 1), ("send_err", W + 1)), ("2R", 1000, W)), lb))
+    ck.merge(core.pmap(live, run_live))
     from props import c19
     sb = 1 if tier == "quick" else 2
     seams = []
@@ -300,6 +344,14 @@ def main(tier):
 
 def replay(rec):
     r = rec["replay"]
+    if "live" in r:
+        from props import c19
+        from vmc import explore, sched as S
+        scn = r["live"]
+        scn = (scn[0], scn[1], tuple(tuple(x) for x in scn[2]), tuple(scn[3]))
+        ex = explore.replay(c19.make_body(scn), r["choices"], "delay", {"horizon": S.EPOCH + 120})
+        print(ex.outcome, ex.error, ex.value and ex.value[1:])
+        return 1 if (ex.outcome != "ok" or sum(ex.value[1]) != ex.value[2]) else 0
     if "seam" in r:
         from props import c19
         from vmc import explore
